@@ -319,24 +319,49 @@ def run(check):
     drops = set(nodes_calling(g, lambda k: (isinstance(k.func, ast.Attribute) and k.func.attr == 'increment' and k.args and
                                             (dotted(k.args[0]) or '').endswith('fullQueueDrops'))))
     both = enq | drops
-    if g.exit in g.reach([g.entry], removed_nodes=both, normal_only=True):
-      p = g.path([g.entry], g.exit, removed_nodes=both, normal_only=True)
-      last = [x for x in p if x.ast is not None]
-      r_d.violate('silent discard', sd, last[-1].ast if last else None, 'sendDatapoint can return without either enqueueing the '
-                  'datapoint or incrementing fullQueueDrops', path=g.describe_path(p))
-    else:
-      r_d.ok('every path enqueues or counts a drop', sd.loc())
-    twice = [n for n in both if any(m in g.reach(g.after(n), normal_only=True) for m in both)]
-    if twice:
-      r_d.violate('double handling', sd, twice[0].ast, 'a datapoint can be enqueued/counted twice in one sendDatapoint call')
-    for dnode in drops:
-      at_limit = dnode not in g.reach([g.entry], normal_only=True, removed_edge=lambda a, lab, b: isinstance(lab, tuple) and
-                                      bound_edge((('F' if lab[0] == 'T' else 'T'), lab[1])) == 'SEND_QUEUE_HARD_MAX')
-      if at_limit:
-        r_d.ok('drop only when the queue is at its hard limit', sd.loc(dnode.ast))
-      else:
-        r_d.violate('drop below the limit', sd, dnode.ast, 'a datapoint can be discarded although the queue is below '
+    # decided per path (sa/paths.py; flags that merely carry the outcome of the admission test are followed)
+    px = PathExec(cx, sd, unroll=0, follow_exceptions=False)
+    verdicts = set()
+
+    def at_hard_limit(hit):
+      """some decision on the path says `queue size >= SEND_QUEUE_HARD_MAX`"""
+      for pol, t, a, n in hit.conds:
+        if pol not in ('T', 'F') or not (isinstance(t, tuple) and t[0] == 'cmp'):
+          continue
+        op, l, r = t[1], t[2], t[3]
+        l_lim = mentions(l, lambda x: x == ('param', 'SEND_QUEUE_HARD_MAX'))
+        r_lim = mentions(r, lambda x: x == ('param', 'SEND_QUEUE_HARD_MAX'))
+        if r_lim and ((op == 'GtE' and pol == 'T') or (op == 'Lt' and pol == 'F')):
+          return True
+        if l_lim and ((op == 'LtE' and pol == 'T') or (op == 'Gt' and pol == 'F')):
+          return True
+      return False
+    for hit in px.run([g.exit]):
+      seen_n = [n for n in hit.trail if n in both]
+      if not seen_n:
+        last = [x for x in hit.trail if x.ast is not None]
+        verdicts.add(('silent', last[-1] if last else None))
+      elif len(seen_n) > 1:
+        verdicts.add(('twice', seen_n[0]))
+      elif seen_n[0] in drops and not at_hard_limit(hit):
+        verdicts.add(('below', seen_n[0]))
+      elif seen_n[0] in drops:
+        verdicts.add(('drop-ok', seen_n[0]))
+    if px.truncated:
+      r_d.cannot_decide('too many paths through sendDatapoint')
+    for kind, n in sorted(verdicts, key=lambda v: (v[0], v[1].lineno if v[1] is not None else 0)):
+      if kind == 'silent':
+        r_d.violate('silent discard', sd, n.ast if n is not None else None, 'sendDatapoint can return without either enqueueing the '
+                    'datapoint or incrementing fullQueueDrops')
+      elif kind == 'twice':
+        r_d.violate('double handling', sd, n.ast, 'a datapoint can be enqueued/counted twice in one sendDatapoint call')
+      elif kind == 'below':
+        r_d.violate('drop below the limit', sd, n.ast, 'a datapoint can be discarded although the queue is below '
                     'SEND_QUEUE_HARD_MAX')
+      else:
+        r_d.ok('drop only when the queue is at its hard limit', sd.loc(n.ast))
+    if not any(v[0] in ('silent', 'twice') for v in verdicts):
+      r_d.ok('every path enqueues the datapoint or counts a drop, exactly once', sd.loc())
 
   # ------------------------------------------------------------------ re-injection
   r_r = check.rule('R-C07-reinject', 1, rule_reinject.__doc__)
